@@ -736,6 +736,62 @@ fn s_relational() -> Result<(), String> {
     Ok(())
 }
 
+/// table definitions that pass the name checks but cannot be stored in the catalog tables are refused
+/// with nothing changed (live and after reopen)
+fn s_create_rejected() -> Result<(), String> {
+    fn observe(p: &mut Package<Medium>) -> Result<Vec<String>, String> {
+        let mut out: Vec<String> = p.tables().map(|t| format!("table {} {:?}", t.name(), t.columns().iter().map(|c| c.name().to_string()).collect::<Vec<_>>())).collect();
+        for t in ["_Tables", "_Columns", "_Validation", "T"] {
+            let rows = p.select_rows(Select::table(t)).map_err(|e| format!("select {} failed: {}", t, e))?;
+            for r in rows {
+                out.push(format!("{}: {:?}", t, (0..r.len()).map(|i| r[i].clone()).collect::<Vec<_>>()));
+            }
+        }
+        Ok(out)
+    }
+    let m = Medium::new();
+    let mut p = Package::create(PackageType::Installer, m.clone()).map_err(|e| e.to_string())?;
+    p.create_table("T", cols()).map_err(|e| e.to_string())?;
+    p.insert_rows(Insert::into("T").row(vec![Value::Int(1), Value::from("one")])).map_err(|e| e.to_string())?;
+    p.flush().map_err(|e| e.to_string())?;
+    let before = observe(&mut p)?;
+    let long_col = "C".repeat(40);
+    let long_tab = "T".repeat(40);
+    let many: Vec<String> = (0..60).map(|i| format!("value{:02}", i)).collect();
+    let many_refs: Vec<&str> = many.iter().map(|s| s.as_str()).collect();
+    let defs: Vec<(&str, String, Vec<Column>)> = vec![
+        ("a 40-character column name", "New1".to_string(), vec![Column::build("K").primary_key().int16(), Column::build(long_col.as_str()).nullable().int16()]),
+        ("a 40-character table name", long_tab.clone(), vec![Column::build("K").primary_key().int16()]),
+        ("an enumeration whose joined text exceeds 255 characters", "New3".to_string(), vec![Column::build("K").primary_key().int16(), Column::build("E").nullable().enum_values(&many_refs).string(16)]),
+        ("a 70-character column name", "New4".to_string(), vec![Column::build("K").primary_key().int16(), Column::build("D".repeat(70).as_str()).nullable().int16()]),
+    ];
+    for (what, name, columns) in defs {
+        let r = quiet_catch(|| p.create_table(name.clone(), columns));
+        match r {
+            Err(_) => return Err(format!("create_table with {} panics", what)),
+            Ok(Ok(())) => {
+                // accepted: then it must be fully there, live and after reopen; drop it again
+                if !p.has_table(&name) {
+                    return Err(format!("create_table with {} returns Ok but the table is missing", what));
+                }
+                p.drop_table(&name).map_err(|e| format!("dropping the table created with {} failed: {}", what, e))?;
+            }
+            Ok(Err(_)) => {}
+        }
+        let after = observe(&mut p)?;
+        if after != before {
+            let extra: Vec<&String> = after.iter().filter(|x| !before.contains(x)).collect();
+            return Err(format!("create_table with {} returned an error (or was undone) but the package changed: {:?}", what, extra));
+        }
+    }
+    p.into_inner().map_err(|e| e.to_string())?;
+    let mut q = Package::open(m.clone()).map_err(|e| format!("reopen after rejected create_table calls failed: {}", e))?;
+    if observe(&mut q)? != before {
+        return Err("after rejected create_table calls the reopened package differs".into());
+    }
+    Ok(())
+}
+
 /// catch_unwind without the default hook's "panicked at" output (the driver reads that as an uncaught panic)
 fn quiet_catch<T>(f: impl FnOnce() -> T) -> std::thread::Result<T> {
     let hook = std::panic::take_hook();
@@ -801,6 +857,7 @@ fn s_join_names() -> Result<(), String> {
 
 #[test]
 fn replay_protocol() {
+    report("create_rejected", s_create_rejected());
     report("relational", s_relational());
     report("keys", s_keys());
     report("join_names", s_join_names());
